@@ -104,6 +104,11 @@ def unserObjs : Sx → List Nat
 def parseObjs : Sx → Option (List (String × Json))
   | .list (.atom "objs" :: os) => os.mapM fun o => match o with
     | Sx.list [m, Sx.atom "unser"] => (asStr m).map fun m => (m, Json.null)
+    -- a call made through the typed service client: for the model an ordinary fresh call object
+    | Sx.list [m, p, Sx.atom "svc"] => do
+      let m ← asStr m
+      let p ← toJson p
+      pure (m, p)
     | Sx.list [m, p] => do
       let m ← asStr m
       let p ← toJson p
@@ -125,6 +130,9 @@ def parseFrame : Sx → Option (List Msg)
     match d with
     | .atom "bad" => pure [Msg.garbage]
     | d => (parseReply d).map fun r => [Msg.reply r]
+  -- bytes of a reply that arrive before the read fails are lost with the failed read
+  | .list [.atom "ioerr", .atom "t", _] => some [Msg.ioerr true]
+  | .list [.atom "ioerr", .atom "f", _] => some [Msg.ioerr false]
   | .list [.atom "ioerr", .atom "t"] => some [Msg.ioerr true]
   | .list [.atom "ioerr", .atom "f"] => some [Msg.ioerr false]
   | _ => none
@@ -242,7 +250,7 @@ def runTimedCase (withhold : Nat) : Sx :=
          .list (.atom "log" :: g.wire.log.map ofReq),
          .list [.atom "slots", ofBool g.conn.reader, ofBool g.conn.writer]]
 
-def runCase : Sx → Option Sx
+partial def runCase : Sx → Option Sx
   | .list [.atom "kind", r] => do
     let r ← parseReply r
     pure (.list [.atom "kind-obs", ofKind (kindOf r)])
@@ -258,6 +266,10 @@ def runCase : Sx → Option Sx
     let groups ← parseGroups groupsSx
     let wb := asNat wb
     pure (runSeqCase (decoderOf rtype groupsSx) objs ops groups wb (unserObjs objsSx))
+  | .list [.atom "seq2", a, b] => do
+    let oa ← runCase a
+    let ob ← runCase b
+    pure (.list [.atom "obs2", oa, ob])
   | .list [.atom "gated", objs, progs, .list (.atom "sched" :: ts)] => do
     let objs ← parseObjs objs
     let progs ← parseProgs progs
@@ -306,8 +318,12 @@ def streamsDone (objs : List (String × Json)) (progs : List (List Op)) (per : L
           (match resPayload r' with | some p => idxOf p == some k | none => false)
       | _, _ => true)
 
-def predCase (cs os : Sx) : Verdict :=
+partial def predCase (cs os : Sx) : Verdict :=
   match cs, os with
+  | .list [.atom "seq2", a, b], .list [.atom "obs2", oa, ob] =>
+    (match predCase a oa with
+     | some r => some ("first-connection: " ++ r)
+     | none => (predCase b ob).map fun r => "second-connection-after-a-failed-read-on-another-one: " ++ r)
   | .list [.atom "kind", r], .list [.atom "kind-obs", k] =>
     match parseReply r, parseKind k with
     | some r, some k =>
